@@ -35,7 +35,7 @@ def inject(rng, text):
                        "redecl_as_const", "redecl_bank_signal", "dup_register", "assign_twice", "assign_twice_builtin",
                        "read_undeclared", "assign_undeclared", "assign_bank_out", "assign_builtin_out", "assign_const",
                        "assign_preamble_const", "const_reads_wire", "default_reads_wire", "partial_disabled_ok",
-                       "assign_twice_in_chain", "assign_twice_in_chain", "bad_bank_name", "partial_shared"])
+                       "assign_twice_in_chain", "assign_twice_in_chain", "bad_bank_name", "partial_shared", "partial_const_enable", "partial_const_enable"])
 
     def drop_assign(name):
         out = []
@@ -99,6 +99,15 @@ def inject(rng, text):
         new = drop_assign("mem_input")
         new = [l if not l.startswith("mem_writebit = ") else "mem_writebit = %s;" % rng.choice(["0", "0b0", "FALSE", "(1 == 2)"]) for l in new]
         return new, None, None, kind
+    if kind == "partial_const_enable" and "mem_input" in assigned:
+        # a write port without its data whose enable is some constant expression - also one that no
+        # width rule has looked at yet when the builder evaluates it (over-wide concatenation,
+        # division by zero, huge shifts): the port is off exactly when the expression evaluates to 0
+        lines[:] = unchain("mem_writebit")
+        new = drop_assign("mem_input")
+        en = rng.choice(CONST_ENABLES)
+        new = [l if not l.startswith("mem_writebit = ") else "mem_writebit = %s;" % en for l in new]
+        return new + ["const EN0 = 0, EN2 = 2;"], "MODEL", None, kind
     if kind == "redecl_wire" and wires:
         w = rng.choice(wires)
         return add("wire %s : %d;" % (w, rng.choice([1, 8, 64]))), "RedeclaredWire", w, kind
@@ -189,6 +198,14 @@ def inject(rng, text):
     return None
 
 
+CONST_ENABLES = ["0", "1", "2", "1 - 1", "EN0", "EN2", "EN2 - 2", "(0[0..128] .. 0[0..1]) != 0", "(1[0..128] .. 1[0..1]) != 0",
+                 "(0[0..128] .. 0[0..128] .. 0[0..128]) == 0", "((0xffffffff)[0..100] .. (0xffffffff)[0..100])[0..1]",
+                 "(0[0..128] .. 0[0..1])[128..129]", "1 / 0", "(1 / 0) == 0", "(0 / 0) > 1", "1 << 200", "((1 << 127) >> 127)", "(1 << 128) == 0",
+                 "0b0 && 1", "!1", "!0", "(~0) == 0", "[ 1 : 0; ]", "[ 0 : 1; 1 : 0; ]", "[ 0 : 1; ]", "1 in { 1, 2 }", "3 in { 1, 2 }",
+                 "(0b1 .. 0b0)[0..1]", "(0b1 .. 0b0)[1..2]", "(0xffffffffffffffffffffffffffffffff + 1) == 0", "(0 - 1) == 0",
+                 "(0b1 .. 0b0) == 2", "0b10", "(2)[1..2]", "(2)[0..1]", "-1", "(0 * 5)", "1 && 0", "0 || 0", "4 > 5", "5 >= 5"]
+
+
 def check(report, tier, seed):
     rng = random.Random(seed)
     n = 700 if tier == "quick" else 15000
@@ -219,6 +236,8 @@ def check(report, tier, seed):
         c = cases[cid]
         by[c["fault"]] += 1
         rep = {"case": c, "expected": [kind, name], "impl": v if v[0] == "reject" else "accept"}
+        if kind == "MODEL":
+            continue            # no oracle of its own: the model's verdict and diagnostics decide (oracle 2)
         if kind is None:
             if v[0] != "accept":
                 report.violation("driver-wrongly-rejected:" + c["fault"], "a program without driver faults was rejected: %s" % v[1][:3], rep)
@@ -233,7 +252,7 @@ def check(report, tier, seed):
     report.coverage["evaluations"] = len(cases)
     report.coverage["distinct_nontrivial"] = len(set(c["hcl"] for c in cases.values() if c["fault"] != "none"))
     report.coverage["rule"] = ("a correct random program (1-12, thorough up to 40 wires, banks, register file, memory) with exactly one injected driver fault "
-                               "of a known kind on a known name (24 fault classes incl. a write port left with only the address it shares with the complete read port, malformed bank names, a name repeated within one chained assignment, over plain wires, constants incl. preamble ones, bank inputs/outputs, "
+                               "of a known kind on a known name (25 fault classes incl. a write port without data whose enable is one of 40 constant expressions (over-wide concatenations, division by zero, huge shifts; judged by the model only), a write port left with only the address it shares with the complete read port, malformed bank names, a name repeated within one chained assignment, over plain wires, constants incl. preamble ones, bank inputs/outputs, "
                                "stall/bubble, built-in inputs/outputs), or none; oracle 1: rejected with a diagnostic of that kind naming that wire / accepted "
                                "when fault-free; oracle 2: verdict, diagnostic multiset and compiled program equal the model's build_program")
     report.coverage["distribution"] = dict(stats, **{"fault_" + k2: v2 for k2, v2 in by.items()})
